@@ -14,6 +14,8 @@ type FG struct {
 	Preds [][]int
 	// node -> (block index, node index) for every node and sub-node placed in a block
 	where map[ast.Node][2]int
+	// MaxEdgeUse: how often EnumSegment may take the same CFG edge on one path (0/1: once; 2 unrolls inner loops twice)
+	MaxEdgeUse int
 }
 
 func (p *GoProg) NewFG(g *cfg.CFG) *FG {
